@@ -269,7 +269,8 @@ ProtocolExtension::parse_handshake() {
     if (!message[message_keys[t].index].is_value())
       continue;
 
-    uint8_t id = message[message_keys[t].index].as_value();
+    int64_t advertised = message[message_keys[t].index].as_value();
+    uint8_t id = (advertised < 0 || advertised > 255) ? 0 : advertised;
 
     set_remote_supported(t);
 
@@ -277,6 +278,12 @@ ProtocolExtension::parse_handshake() {
       peer_toggle_remote(t, id != 0);
 
       m_idMap[t - 1] = id;
+
+      // A reply of this type that is still waiting to be written can no longer be addressed.
+      if (id == 0 && m_pendingType == t) {
+        m_pending.clear();
+        m_pendingType = HANDSHAKE;
+      }
     }
   }
 
@@ -331,6 +338,10 @@ ProtocolExtension::parse_ut_metadata() {
 
   switch(message[key_msgType].as_value()) {
   case 0:
+    // The peer did not advertise (or disabled) ut_metadata: there is no id to reply with.
+    if (id(UT_METADATA) == 0)
+      break;
+
     // Can't process new request while still having data to send.
     if (has_pending_message())
       return false;
